@@ -115,7 +115,7 @@ def h_escape(e, pos, high, nch=2, string=None):
     else:
         leaf = list('m' + string + 'n')
         src_leaf = list('m' + (string if ctx == 'raw' else string.replace('&', '\\&').replace('#', '\\#')) + 'n')
-    parts = ['\\documentclass{article}\\begin{document}']
+    parts = ['\\documentclass{article}\\begin{document}\\section{T}intro\n\n']          # inside a section: text is normalised as in real documents
     for p in tmpl:
         parts.append(src_leaf if p == 'LEAF' else p)
     parts.append('\\end{document}')
